@@ -122,7 +122,8 @@ def arith(op, a, b):
 class Evaluator:
   """Evaluates the predicates of one (functor-free, see functors.py in this package) program over one database."""
 
-  def __init__(self, rules, db, depth=8, depths=None, lfp=False, lfp_cap=64):
+  def __init__(self, rules, db, depth=8, depths=None, lfp=False, lfp_cap=64, ol=None):
+    self.ol = ol or {}            # predicate -> (order_by list, limit) given by @OrderBy/@Limit annotations
     self.rules_of = {}
     for r in rules: self.rules_of.setdefault(r.pred, []).append(r)
     self.db = db                      # {pred: (cols, [rows])}
@@ -273,6 +274,8 @@ class Evaluator:
     lim = [r for r in rules if r.order_by or r.limit is not None]
     if lim:
       out = (cols, order_limit(cols, out[1], lim[0].order_by, lim[0].limit))
+    elif pred in self.ol:
+      out = (cols, order_limit(cols, out[1], self.ol[pred][0], self.ol[pred][1]))
     return out
 
   def prepare_rule(self, r):
